@@ -124,7 +124,12 @@ def gen_pairs(tier, rng):
         off = np.array([rng.choice((0.0, 0.5, 1.0, 1.5)) * rng.choice((-1, 1)) if rng.random() < 0.5 else 0.0 for _ in range(3)])
         M = np.array(rng.choice(S.CUBE)[0], dtype=float)
         t1, t2 = V[T[i]], V[T[j]] @ M.T + off
-        out.append((t1, pot[T[i]], t2, pot[T[j]], rng.choice(Es), rng.choice(Es), "cube"))
+        E1, E2 = rng.choice(Es), rng.choice(Es)
+        if E1 == E2 and sorted(map(tuple, np.round(t1, 9).tolist())) == sorted(map(tuple, np.round(t2, 9).tolist())):
+            # the same tetrahedron with the same pressure field twice: the equal-pressure plane is undefined (0 = 0 everywhere),
+            # outside the domain of the property (found as three OrderIndependent alarms of the thorough tier)
+            E2 = E1 * 2.0
+        out.append((t1, pot[T[i]], t2, pot[T[j]], E1, E2, "cube"))
     # random real tetrahedra
     for _ in range(n // 2):
         t1 = np.array([[rng.gauss(0, 1) for _ in range(3)] for _ in range(4)])
